@@ -153,9 +153,10 @@ def run(chk, ctx):
         for pi in tab.paths(P, be, to_return_only=True):
             v = [d[2] for d in pi.decisions() if d[0] == "variant" and d[1] == "self"]
             r = terms.strip(pi.ret())
-            if ordrules.shape_of(r) != "Ok":
+            sh = ordrules.shape_of(r)
+            if sh == "Err":
                 continue
-            val = r[3][0][1] if r[0] == "agg" else r
+            val = r[3][0][1] if (r[0] == "agg" and sh == "Ok") else r
             facts_ = set((f[0], f[1], f[2]) for f in pi.cmp_facts())
             for vn in (v[0] if v else ("*",)):
                 got.setdefault(vn, set()).add((canon(val), ("Ne", "right", "0") in facts_))
